@@ -309,6 +309,20 @@ def check_stream(case):
                         out.fail('an undamaged message of a damaged stream is delivered with other values (%s decoder)' % kind,
                                  message=i, diff=d, faults=[case.faults[j][1] for j in bad])
                         break
+        # the same with a filter expression that holds for every message: nothing more is lost
+        if kind == 'plain':
+            filt = ['${%edition} > 0', '${%n_subsets} >= 0 and ${%length} > 0', 'True or ${%data_category}'][int(case.key()[2:4], 16) % 3]
+            with contextlib.redirect_stderr(sink):
+                got, exc = run_scan(dec, case.stream, continue_on_error=True, filter_expr=filt)
+            if exc is not None:
+                out.fail('continue-on-error scan with a filter raised %s@%s' % (type(exc).__name__, sut.innermost_sut_frame(exc.__traceback__)),
+                         error=str(exc)[:200], faults=[case.faults[i][1] for i in bad], filter=filt)
+            else:
+                gb = [m.serialized_bytes for m in got]
+                if not (gb == want or (maybe and is_subsequence(want, gb) and is_subsequence(gb, may_deliver))):
+                    out.fail('continue-on-error scan with a filter that holds for every message does not deliver exactly the undamaged messages',
+                             delivered=[case.pieces.index(x) if x in case.pieces else None for x in gb], undamaged=good,
+                             faults=[case.faults[i][1] for i in bad], filter=filt)
         # full scan, no continue: the messages before the first damaged one, then the library error
         got, exc = run_scan(dec, case.stream, continue_on_error=False)
         gb = [m.serialized_bytes for m in got]
@@ -362,7 +376,20 @@ def check_cli(case):
                          faults=[f[1] for f in case.faults if f])
             elif 'Traceback' in se or 'Traceback' in so:
                 out.fail('the command line prints a traceback for "%s"' % ' '.join(argv[:-1]))
+        # every sub-command that reads a BUFR file, on a damaged message alone in its file
         first_bad = min(i for i, f in enumerate(case.faults) if f)
+        one = os.path.join(d, 'damaged.bufr')
+        with open(one, 'wb') as f:
+            f.write(case.pieces[first_bad])
+        for argv in (['subset', '0', one, os.path.join(d, 'out.bufr')], ['compile', one], ['query', '%length', one], ['query', '001001', one],
+                     ['script', 'print(${%edition})', one], ['script', 'print(${001001})', one], ['info', one], ['info', '-t', one],
+                     ['decode', '-a', one], ['decode', '-j', one], ['split', one]):
+            o, so, se = cli.run_main(argv)
+            if not o.ok:
+                out.fail('the command line lets %s escape (traceback) for "%s"' % (o.exc_type, ' '.join(argv[:2])), error=o.msg,
+                         fault=case.faults[first_bad][1])
+            elif 'Traceback' in se or 'Traceback' in so:
+                out.fail('the command line prints a traceback for "%s"' % ' '.join(argv[:2]))
         o, so, se = cli.run_main(['decode', '-m', path])
         if o.ok and not se.strip() and not all(f[1].get('maybe_decodable') for f in case.faults if f):
             out.fail('decode -m on a damaged stream reports nothing on stderr')
